@@ -6,7 +6,7 @@
    REAL reduce_classes output and per document of every generated sample set. *)
 From Coq Require Import NArith List Bool.
 From XV Require Import Base.Str Model.Sample Model.SampleCorr Model.ConvFactory
-  Proofs.SampleBuild Proofs.SampleFit Proofs.SampleTypes Proofs.SampleAccept Proofs.SampleGuarded Proofs.SampleJson.
+  Proofs.SampleBuild Proofs.SampleFit Proofs.SampleTypes Proofs.SampleAccept Proofs.SampleGuarded Proofs.SampleJson Proofs.SampleBase Proofs.SampleOrder.
 Import ListNotations.
 
 (* 1. samples_fit + attrs_fit: for EVERY set of sample trees and EVERY behaviour of the converter tests, every
@@ -75,6 +75,30 @@ Print Assumptions C13_nil_fit.
 Theorem C13_ns_fit : forall cv (S : list tree), forallb (doc_ns_ok (classes_of_xml cv S)) S = true.
 Proof. exact ns_fit. Qed.
 Print Assumptions C13_ns_fit.
+
+(* 5b. ClassUtils.sorted_attrs keeps the order of what it merges: attrs already placed never change their relative
+       order; the first (largest) class is kept as it is; an attr that is NEW when its class is merged ends up
+       before the attr that follows it in that class (a run of new attrs keeps its order, in front of the next
+       known attr).  "Every class keeps its relative order" is false: two classes can list two attrs in opposite
+       orders. *)
+Theorem C13_sorted_attrs_stable : forall pre post, Subseq (sorted_attrs pre) (sorted_attrs (pre ++ post)).
+Proof. exact sorted_attrs_stable. Qed.
+Print Assumptions C13_sorted_attrs_stable.
+
+Theorem C13_sorted_attrs_first : forall c post, Subseq c (sorted_attrs (c :: post)).
+Proof. exact sorted_attrs_first. Qed.
+Print Assumptions C13_sorted_attrs_first.
+
+Theorem C13_sorted_attrs_new_before : forall pre c post a u v b,
+  NoDup (keys c) -> c = a ++ u :: v :: b -> ~ In (key u) (keys (sorted_attrs pre)) ->
+  kbefore (sorted_attrs (pre ++ c :: post)) (key u) (key v).
+Proof. exact sorted_attrs_new_before. Qed.
+Print Assumptions C13_sorted_attrs_new_before.
+
+Theorem C13_sorted_attrs_order_refuted :
+  exists cs c u v, In c cs /\ c = [u; v] /\ ~ kbefore (sorted_attrs cs) (key u) (key v).
+Proof. exact sorted_attrs_order_refuted. Qed.
+Print Assumptions C13_sorted_attrs_order_refuted.
 
 (* 6. the remaining clauses of `regular` (evaluated per document by the check, no unbounded theorem under
       them): each is a statement about the merged classes that the faithful model falsifies; every witness
